@@ -48,14 +48,22 @@ type gateConn struct {
 	arrivals chan *gateEv
 	writes   [][]byte
 	closed   bool
+	failed   bool // a transport operation has failed
+	after    int  // transport operations started after that
 }
 
 func (g *gateConn) park(ev *gateEv) error {
+	g.mu.Lock()
+	if g.failed {
+		g.after++
+	}
+	g.mu.Unlock()
 	g.arrivals <- ev
 	<-ev.release
 	g.mu.Lock()
 	defer g.mu.Unlock()
 	if g.closed {
+		g.failed = true
 		return errOther
 	}
 	return nil
@@ -325,6 +333,7 @@ func concExec(s core.Spec) core.Exec {
 	}
 	g.mu.Lock()
 	writes := append([][]byte(nil), g.writes...)
+	after := g.after
 	g.mu.Unlock()
 	// drain: release everything still parked so goroutines end
 	for round := 0; round < 50; round++ {
@@ -380,6 +389,7 @@ func concExec(s core.Spec) core.Exec {
 		part[[2]int{tid, fid}]++
 		t.N(tid).N(fid).N(part[[2]int{tid, fid}])
 	}
+	t.N(after)
 	tags := []string{}
 	if diverged {
 		tags = append(tags, "script-diverged")
@@ -396,7 +406,7 @@ type simThread struct {
 	k     int // writes done
 }
 
-func genConc(rng *rand.Rand, prop int) *ConcSpec {
+func genConc(rng *rand.Rand, prop int, connCloseOneIn int) *ConcSpec {
 	sp := &ConcSpec{Prop: prop}
 	// thread 0: the writer
 	nw := 1 + rng.Intn(3)
@@ -417,7 +427,7 @@ func genConc(rng *rand.Rand, prop int) *ConcSpec {
 			if rng.Intn(3) == 0 {
 				cl.Close = true
 			}
-			if rng.Intn(12) == 0 {
+			if rng.Intn(connCloseOneIn) == 0 {
 				cl = CCall{Fid: i + 1, Kind: 1}
 			}
 			cs = append(cs, cl)
@@ -553,7 +563,7 @@ func genConc(rng *rand.Rand, prop int) *ConcSpec {
 	return sp
 }
 
-func concGen(prop int) func(rng *rand.Rand, tier string) []core.Spec {
+func concGen(prop int, connCloseOneIn int) func(rng *rand.Rand, tier string) []core.Spec {
 	return func(rng *rand.Rand, tier string) []core.Spec {
 		n := 400
 		if tier == "thorough" {
@@ -561,7 +571,7 @@ func concGen(prop int) func(rng *rand.Rand, tier string) []core.Spec {
 		}
 		var out []core.Spec
 		for i := 0; i < n; i++ {
-			out = append(out, genConc(rng, prop))
+			out = append(out, genConc(rng, prop, connCloseOneIn))
 		}
 		return out
 	}
@@ -573,6 +583,7 @@ func init() {
 		151: "bytes were written after a close frame",
 		152: "a WriteControl that timed out wrote something",
 		153: "a call failed with ErrCloseSent although no close frame was ever written (a timed-out or failed close poisoned the connection)",
+		154: "after a transport operation had failed, another transport operation was started",
 		199: "malformed observation",
 	}
 	dec := func(raw json.RawMessage) (core.Spec, error) {
@@ -581,6 +592,7 @@ func init() {
 		return &s, err
 	}
 	rule := "threads {writer goroutine with 1-3 WriteMessage calls (one- and two-Write frames, occasionally a close), 1-2 goroutines with 1-2 WriteControl calls each (ping/close; deadline zero/past/future), occasionally Conn.Close} on a connection whose transport parks every SetWriteDeadline/Write at a gate; schedules are random walks over {start a call, release a parked operation, let a waiting WriteControl's deadline pass} produced by a simulation of the lock protocol (at most one goroutine waiting for the lock at a time); non-trivial = something reached the transport"
-	core.Register(&core.Prop{ID: "C09", Rule: rule, Gen: concGen(9), Exec: concExec, Decode: dec, Clauses: clauses})
-	core.Register(&core.Prop{ID: "C11", Rule: rule, Gen: concGen(11), Exec: concExec, Decode: dec, Clauses: clauses})
+	core.Register(&core.Prop{ID: "C09", Rule: rule, Gen: concGen(9, 12), Exec: concExec, Decode: dec, Clauses: clauses})
+	core.Register(&core.Prop{ID: "C11", Rule: rule, Gen: concGen(11, 12), Exec: concExec, Decode: dec, Clauses: clauses})
+	core.Register(&core.Prop{ID: "C10c", Rule: rule + "; here every third control call is Conn.Close, so that the transport operation in flight (or the next one) fails while other callers are queued on the write lock", Gen: concGen(11, 3), Exec: concExec, Decode: dec, Clauses: clauses})
 }
